@@ -28,7 +28,8 @@ RULE = (
     'complete Cartesian products: (certification set x altitude x Mach x scale) with the whole '
     'fuel-flow alphabet (every branch point and +-1 ulp) evaluated as one vector per case; ISA altitude '
     'alphabet x call form; smoke-number^4 x engine type x bypass ratio; sulfur x yield; FOA3 thrust x HC; '
-    'MEEM engine variant x altitude x Mach x scale. A case is non-trivial when at least one value was '
+    'MEEM engine variant x altitude x Mach x scale; all 75 relative orders (with ties) of the four calibration flows; every SCOPE11 case '
+    'also runs a fixed call sequence (five short-lived argument objects, then one mutable object edited in place four times). A case is non-trivial when at least one value was '
     'compared with the reference (or a documented refusal was observed); distinct = distinct case'
 )
 ASSUMPTIONS = [
@@ -134,6 +135,10 @@ CERT = {
     'level-eq-approach': _cs((0.1, 0.3, 1.0, 1.2), (4, 9, 18, 24), (30, 3, 3, 3), (8, 2, 4, 1)),
     # extreme magnitudes
     'tiny-huge': _cs((0.004, 0.013, 0.04, 0.05), (1e-6, 1e-5, 1e-4, 2e-4), (1e4, 10, 1e-6, 1e-6), (2e4, 1e4, 1e3, 9e2)),
+    # idle calibration flow above the climb flow: the idle threshold lies above the climb threshold
+    'idle-above-climb': _cs((0.9, 0.5, 0.6, 1.2), (5, 20, 8, 30), (20, 5, 1, 2), (40, 30, 3, 2)),
+    # strictly decreasing calibration flows
+    'decreasing-flows': _cs((1.2, 0.9, 0.5, 0.2), (4, 9, 18, 24), (12, 3, 1, 0.8), (40, 5, 0.6, 0.5)),
     # large engine: break point above 1 kg/s and idle flow above 0.01
     'large-engine': _cs((0.3, 1.0, 3.0, 3.7), (5, 12, 30, 45), (2.0, 0.1, 0.05, 0.04), (20, 2, 0.2, 0.25)),
 }
@@ -178,6 +183,20 @@ def inflight_flows(cs):
     """Whole-aircraft (two engines) in-flight flows pushed through FFM2 first."""
     f_i, f_a, f_c, f_t = cs['ff']
     return [0.0, 0.6 * f_i, 2.0 * f_i, 2.0 * f_a, 1.6 * f_c, 2.0 * f_t, 2.4 * f_t]
+
+
+def _weak_orderings(n):
+    """All rank vectors of n items with ties (ordered set partitions): 75 for n = 4."""
+    out = set()
+    for ranks in itertools.product(range(n), repeat=n):
+        used = sorted(set(ranks))
+        if used == list(range(len(used))):
+            out.add(ranks)
+    return sorted(out)
+
+
+ORDER_VALUES = [0.11, 0.343, 1.031, 1.293]
+FLOW_ORDERINGS = _weak_orderings(4)  # every relative order (with ties) of idle/approach/climb/take-off flows
 
 
 SN_QUICK = [-1.0, 0.0, 2.1, 11.2, NEXT(40.0, 0.0), 40.0, 45.0]
@@ -229,6 +248,13 @@ def sublattices(tier, seed):
                 'fuel_flow(shipped)': flow_alphabet(CERT['shipped']) + ['FFM2(' + repr(x) + ')' for x in inflight_flows(CERT['shipped'])],
             },
             'cases': [{'k': 'chain', 'cs': c, 'h': h, 'm': m, 's': s} for c in cert for h in alts for m in mach for s in SCALES],
+        }
+    )
+    subs.append(
+        {
+            'name': 'cat: every relative order (with ties) of the four calibration flows (fuel-flow alphabet inside)',
+            'axes': {'ranks(idle,approach,climb,takeoff)': [list(r) for r in FLOW_ORDERINGS], 'values_by_rank': ORDER_VALUES},
+            'cases': [{'k': 'cat', 'ranks': list(r)} for r in FLOW_ORDERINGS],
         }
     )
     subs.append(
@@ -657,6 +683,55 @@ def _run_chain(case):
     return {'outcome': out, 'nontrivial': acc.compared > 0, 'violations': acc.v}
 
 
+# --------------------------------------------------------------------------- category orderings
+
+
+def _run_cat(case):
+    """Thrust category (and everything keyed on it) for one relative order of the calibration flows."""
+    S = _STATE
+    acc = _Acc()
+    ffcal = [ORDER_VALUES[r] for r in case['ranks']]
+    low, high = R.thrust_thresholds(ffcal)
+    vals = [0.0, -0.01, 0.5 * min(ffcal), 1.2 * max(ffcal), 0.5 * (low + high)]
+    for x in list(ffcal) + [low, high]:
+        vals += _pm1(x)
+    for a, b in zip(sorted(set(ffcal + [low, high])), sorted(set(ffcal + [low, high]))[1:]):
+        vals.append(0.5 * (a + b))
+    flows = sorted(set(float(v) for v in vals))
+    ff = np.array(flows)
+    n = len(ff)
+    ffv = _tmv(ffcal)
+    ref_cats = [R.thrust_category(x, ffcal) for x in flows]
+    ok, cats = _call(acc, 'category-raised', 'get_thrust_cat_cruise', S['eutils'].get_thrust_cat_cruise, ff, ffv)
+    if ok:
+        cat_list = [str(getattr(c, 'value', c)) for c in cats]
+        if len(cat_list) != n:
+            acc.add('shape', f'{len(cat_list)} categories for {n} flows')
+        else:
+            for j in range(n):
+                acc.compared += 1
+                if cat_list[j] != ref_cats[j]:
+                    acc.add('thrust-category', f'ff={flows[j]!r} ff_cal={ffcal} thresholds={(low, high)} AEIC={cat_list[j]} reference={ref_cats[j]}')
+            ranks = [R.CAT_RANK.get(c, -1) for c in cat_list]
+            if any(r < 0 for r in ranks):
+                acc.add('thrust-category', f'unknown category among {sorted(set(cat_list))}')
+            elif any(b < a for a, b in zip(ranks, ranks[1:])):
+                acc.add('thrust-category-not-monotone', f'categories along increasing flow: {cat_list} ff_cal={ffcal}')
+            ok2, r3 = _call(acc, 'pmvol-raised', 'EI_PMvol_FuelFlow', S['pmvol'].EI_PMvol_FuelFlow, ff, cats)
+            if ok2:
+                pmv = np.asarray(r3[0], float)
+                if pmv.shape == (n,):
+                    for j in range(n):
+                        acc.cmp('pmvol-fuelflow', lambda j=j: f'PMvol at ff={flows[j]!r} (category {ref_cats[j]}) ff_cal={ffcal}', pmv[j], R.fuelflow_pmvol(ref_cats[j])[0], 1e-12)
+        # single-point calls agree with the vector call
+        for j in range(n):
+            c0 = list(S['eutils'].get_thrust_cat_cruise(ff[j : j + 1].copy(), ffv))[0]
+            if str(getattr(c0, 'value', c0)) != cat_list[j]:
+                acc.add('element-dependence', f'category at ff={flows[j]!r}: alone {c0}, in vector {cat_list[j]} ff_cal={ffcal}')
+    order = 'idle-thr<=climb-thr' if low <= high else 'idle-thr>climb-thr'
+    return {'outcome': f'cat:{order}:{len(set(case["ranks"]))}-distinct-flows', 'nontrivial': acc.compared > 0, 'violations': acc.v}
+
+
 # --------------------------------------------------------------------------- SOx
 
 
@@ -744,7 +819,58 @@ def _run_s11(case):
             got = [float(sp.mass[mo]) for mo in TM]
             if got != vals:
                 acc.add('scope11-cache', f'scope11_profile(edb SN={sn}, {et}, BPR={bpr}) = {got} but direct call = {vals}')
-    return {'outcome': f'scope11:{et}:{nvalid}-valid-modes', 'nontrivial': acc.compared > 0, 'violations': acc.v}
+    # -- call sequences (the function memoises): every call must be right for the *contents*
+    #    it is given, whatever was asked before and whatever objects carried the earlier questions.
+    f = S['pmnvol'].calculate_PMnvolEI_scope11
+    variants = []
+    for k in (1, 2, 3):
+        variants.append(sn[k:] + sn[:k])
+    variants.append(sn[::-1])
+    variants.append(sn)
+
+    def _check_seq(tag, got, content):
+        if et in ('TF', 'MTF'):
+            exp = [R.scope11_mass(x, name, et, bpr) for x, name in zip(content, R.MODES)]
+        else:
+            exp = None
+        for i, g in enumerate(got):
+            acc.compared += 1
+            bad = not (math.isfinite(g) and g >= 0.0) if exp is None else not ((g == 0.0) if exp[i] == 0.0 else _close(g, exp[i]))
+            if bad:
+                acc.add('scope11-sequence', f'{tag}: SN={content} {et} BPR={bpr} mode={R.MODES[i]} AEIC={g!r} reference={(exp[i] if exp else "finite>=0")!r}')
+                break
+
+    # (a) short-lived argument objects: each one is dropped before the next is built, so a later
+    #     object may live at the address of an earlier, different smoke-number set
+    ids = []
+    for content in variants:
+        t = _tmv(content)
+        ids.append(id(t))
+        try:
+            r = f(t, et, bpr)
+            got = [float(r[mo]) for mo in TM]
+        except Exception as ex:  # noqa: BLE001
+            acc.add('scope11-raised', f'sequence call SN={content} raised {type(ex).__name__}: {ex}')
+            got = None
+        del t, r
+        if got is not None:
+            _check_seq('short-lived argument objects', got, content)
+    # (b) one mutable smoke-number object edited in place between calls
+    t = S['TMV'](*sn, mutable=True)
+    try:
+        got = [float(f(t, et, bpr)[mo]) for mo in TM]
+        _check_seq('mutable object, first call', got, sn)
+        cur = list(sn)
+        for k, mo in enumerate(TM):
+            newv = sn[(k + 1) % 4] if sn[(k + 1) % 4] != cur[k] else 17.5
+            t[mo] = newv
+            cur[k] = newv
+            got = [float(f(t, et, bpr)[m2]) for m2 in TM]
+            _check_seq(f'mutable object after in-place edit of {R.MODES[k]}', got, list(cur))
+    except Exception as ex:  # noqa: BLE001
+        acc.add('scope11-raised', f'mutable-argument sequence raised {type(ex).__name__}: {ex}')
+    reuse = 'addr-reused' if len(set(ids)) < len(ids) else 'addr-fresh'
+    return {'outcome': f'scope11:{et}:{nvalid}-valid-modes:{reuse}', 'nontrivial': acc.compared > 0, 'violations': acc.v}
 
 
 # --------------------------------------------------------------------------- FOA3 direct
@@ -878,7 +1004,7 @@ def _run_meem(case):
 
 # --------------------------------------------------------------------------- dispatch
 
-_RUN = {'isa': _run_isa, 'chain': _run_chain, 'sox': _run_sox, 's11': _run_s11, 'foa3': _run_foa3, 'meem': _run_meem}
+_RUN = {'cat': _run_cat, 'isa': _run_isa, 'chain': _run_chain, 'sox': _run_sox, 's11': _run_s11, 'foa3': _run_foa3, 'meem': _run_meem}
 
 
 def run_case(case):
